@@ -413,6 +413,8 @@ def main_obligations(rep, tier):
 
 
 def check(rep, tier):
+    from vlib import statecensus
+    statecensus.obligations(rep, 'C15', 'planner')
     rep.dropped = 'ts_utils helper bodies read with ast.parse (recursive calls replaced by their contract); plan_timeseries_predictor is RUN on the grid, its emitted trees are the input of the z3 evaluator'
     rep.assume('SQL semantics of the emitted WHERE trees as encoded in pred_of (AND, comparisons, BETWEEN, IS NOT NULL; NULL comparisons are not true)',
                'MapReduceStep runs its sub-steps once per distinct partition value with $var[col] bound to it', 'window/bounds/partition values are symbolic; query SHAPES are the finite grid')
